@@ -81,6 +81,41 @@ fn c07_extract_ranges(q: Quaternion<R>) {
     }
     vcover("end");
 }
+// ---- inside the gimbal-lock cone: the five entries of the rebuilt matrix that do not involve z are within 0.13
+// (in fact within 0.064) of q's matrix.  The four entries with sin z / cos z are outside the claim (DESIGN C07).
+fn c07_lemma_small(a: R, b: R, c: R) {
+    // (a, b, c) a unit vector with |c| >= 0.998  =>  |a|, |b| <= 0.13
+    vassume_eq(a * a + b * b + c * c, R(1.0)); vassume((c >= R(0.998)) | (c <= R(-0.998)));
+    vassert("|a| <= 0.13", (a <= R(0.13)) & (a >= R(-0.13)));
+    vassert("|b| <= 0.13", (b <= R(0.13)) & (b >= R(-0.13)));
+    vassert("|c| <= 1", (c <= R(1.0)) & (c >= R(-1.0)));
+    vcover("end");
+}
+fn c07_gimbal_partial(q: Quaternion<R>) {
+    unitq(q);
+    let test = q.v.x * q.v.z + q.v.y * q.s;
+    vassume((test > R(0.499)) | (test < R(-0.499)));
+    vlemma_eq("|q|^2 in the code's order", q.v.x * q.v.x + q.v.z * q.v.z + q.v.y * q.v.y + q.s * q.s, R(1.0));
+    let e: Euler<Rad<R>> = q.into();
+    if test > R(0.499) { vcover("gimbal +"); } else { vcover("gimbal -"); }
+    let m = a3(Matrix3::from(e)); let w = a3(Matrix3::from(q));
+    vlemma_eq("w20 = 2 test", w[2][0], R(2.0) * test);
+    vlemma("|w20| >= 0.998", (w[2][0] >= R(0.998)) | (w[2][0] <= R(-0.998)));
+    vlemma_eq("column 2 of M(q) is a unit vector", w[2][1] * w[2][1] + w[2][2] * w[2][2] + w[2][0] * w[2][0], R(1.0));
+    c07_lemma_small(w[2][1], w[2][2], w[2][0]);
+    vlemma_eq("row 0 of M(q) is a unit vector", w[0][0] * w[0][0] + w[1][0] * w[1][0] + w[2][0] * w[2][0], R(1.0));
+    c07_lemma_small(w[0][0], w[1][0], w[2][0]);
+    vlemma("|w20| <= 1", (w[2][0] <= R(1.0)) & (w[2][0] >= R(-1.0)));
+    // rebuilt entries that do not depend on z: m00 = m10 = m21 = m22 = 0, m20 = +-1
+    vlemma_eq("rebuilt m00", m[0][0], R(0.0)); vlemma_eq("rebuilt m10", m[1][0], R(0.0));
+    vlemma_eq("rebuilt m21", m[2][1], R(0.0)); vlemma_eq("rebuilt m22", m[2][2], R(0.0));
+    vassert("m20 within 0.13", (m[2][0] - w[2][0] <= R(0.13)) & (m[2][0] - w[2][0] >= R(-0.13)));
+    vassert("m00 within 0.13", (m[0][0] - w[0][0] <= R(0.13)) & (m[0][0] - w[0][0] >= R(-0.13)));
+    vassert("m10 within 0.13", (m[1][0] - w[1][0] <= R(0.13)) & (m[1][0] - w[1][0] >= R(-0.13)));
+    vassert("m21 within 0.13", (m[2][1] - w[2][1] <= R(0.13)) & (m[2][1] - w[2][1] >= R(-0.13)));
+    vassert("m22 within 0.13", (m[2][2] - w[2][2] <= R(0.13)) & (m[2][2] - w[2][2] >= R(-0.13)));
+    vcover("end");
+}
 // for |sin y| <= 0.998 the extracted angles rebuild q's rotation exactly: Matrix3::from(Euler::from(q)) = Matrix3::from(q)
 fn c07_rebuild(q: Quaternion<R>) {
     unitq(q);
